@@ -1068,3 +1068,22 @@ package ast
 //@        && meta.ValueType == wrap_s64($rI[old($rPos)+3]) && len(meta.ValueBytes) == $rI[old($rPos)+4] && meta.IsNil == $rB[old($rPos)+6]
 //@   ensures[C12] completeloads: kindsConstantMeta($rK, old($rPos)) && old($rPos) + 7 <= $rEnd && $rI[old($rPos)+4] < 9223372036854775808 ==> err == nil
 //@   ensures[C12] truncationfails: err == nil ==> $rPos <= $rEnd && $rPos >= old($rPos)
+
+// F5 (C12, C16): the rule-entry record of the binary format has no field for Deleted, so the only way "a removed rule
+// never fires again, including after store and load" can hold is that a removed entry is not catalogued as a live rule.
+//@ ghost var $catAddN int
+//@ extern func (cat *Catalog) AddMeta(astID, meta) (added)
+//@   nopanic
+//@   ghost_exit $catAddN = $catAddN + 1
+//@ extern func (e *RuleEntry) GetSnapshot() (s)
+//@   nopanic
+//@ extern func (e *WhenScope) MakeCatalog(cat) ()
+//@   modifies $catAddN
+//@ extern func (e *ThenScope) MakeCatalog(cat) ()
+//@   modifies $catAddN
+//@ func (e *RuleEntry) MakeCatalog(cat) ()
+//@   serves C12 C16
+//@   requires e != nil && cat != nil
+//@   opt alloc=1
+//@   modifies $catAddN, alloc, RuleEntryMeta.*
+//@   ensures[C12,C16] deletednotstored: e.Deleted ==> $catAddN == old($catAddN)
